@@ -652,14 +652,16 @@ func stripConvShift(v ssa.Value) ssa.Value {
 	return v
 }
 
-func (x *c04) r6() {
+func (x *c04) r6() { x.regionRule("C04.R6", []string{"MapRegion", "IdentityMapRegion"}) }
+
+func (x *c04) regionRule(rule string, names []string) {
 	c, m := x.c, x.m
-	c.floor("C04.R6", 2)
+	c.floor(rule, len(names))
 	z := &Polyizer{Inline: true}
-	for _, name := range []string{"MapRegion", "IdentityMapRegion"} {
+	for _, name := range names {
 		fn := m.lookupFunc("mm/vmm", name)
 		if fn == nil {
-			c.unresolved("C04.R6", "vmm."+name)
+			c.unresolved(rule, "vmm."+name)
 			continue
 		}
 		g := newIG(m, fn, nil)
@@ -667,7 +669,7 @@ func (x *c04) r6() {
 		calls := g.callNodes(x.mapFn)
 		bad := ""
 		if len(calls) != 1 {
-			c.fail("C04.R6", key, "expected exactly one map call in the loop", m.pos(fn.Pos()))
+			c.fail(rule, key, "expected exactly one map call in the loop", m.pos(fn.Pos()))
 			continue
 		}
 		cn := calls[0]
@@ -784,6 +786,6 @@ func (x *c04) r6() {
 				}
 			}
 		}
-		c.check(bad == "", "C04.R6", key, "maps exactly cdiv(size,4096) pages, page and frame advance together by one, flags unchanged, first error returned", bad, g.posOf(cn))
+		c.check(bad == "", rule, key, "maps exactly cdiv(size,4096) pages, page and frame advance together by one, flags unchanged, first error returned", bad, g.posOf(cn))
 	}
 }
